@@ -90,6 +90,52 @@ POSITIONS = {
     "types.rs:emit_pattern:fname": "struct-pattern-field",
     "types.rs:emit_pattern:s": "enum-pattern-path-segment",
     "types.rs:emit_pattern:variant": "enum-variant",
+    # --- the same 45 sites as spelled after the `fix:` commits (fed expression now goes through escape_keyword)
+    "decls.rs:emit_decl:Self :: escape_keyword ( name )": "type-alias-name",
+    "decls.rs:emit_decl:Self :: escape_keyword ( name )#2": "const-name",
+    "decls.rs:emit_decl:Self :: escape_keyword ( s )": "import-path-segment",
+    "decls.rs:emit_decl:Self :: escape_keyword ( alias_name )": "import-alias",
+    "decls.rs:emit_decl:Self :: escape_keyword ( & item . name )": "imported-item-name",
+    "decls.rs:emit_decl:Self :: escape_keyword ( alias )": "from-import-alias",
+    "decls.rs:emit_trait:Self :: escape_keyword ( & trait_decl . name )": "trait-name",
+    "decls.rs:emit_trait_method:Self :: escape_keyword ( & func . name )": "trait-method-name",
+    "decls.rs:emit_trait_method:Self :: escape_keyword ( & p . name )": "trait-method-parameter",
+    "decls.rs:emit_impl:Self :: escape_keyword ( & impl_block . target_type )": "impl-target-type",
+    "decls.rs:emit_impl:Self :: escape_keyword ( & fname )": "field-name-in-derived-impl",
+    "decls.rs:emit_impl:Self :: escape_keyword ( trait_name )": "trait-name-in-impl",
+    "decls.rs:emit_impl:Self :: escape_keyword ( trait_name )#2": "trait-name-in-impl",
+    "decls.rs:emit_method:Self :: escape_keyword ( & func . name )": "method-name",
+    "decls.rs:emit_method:Self :: escape_keyword ( & p . name )": "method-parameter",
+    "decls.rs:emit_function:Self :: escape_keyword ( & func . name )": "function-name",
+    "decls.rs:emit_struct:Self :: escape_keyword ( d )": "derive-name",
+    "decls.rs:emit_struct:Self :: escape_keyword ( & f . name )": "field-name",
+    "decls.rs:emit_struct:Self :: escape_keyword ( & f . name )#2": "field-name",
+    "decls.rs:emit_struct:Self :: escape_keyword ( & f . name )#3": "field-name",
+    "decls.rs:emit_enum:Self :: escape_keyword ( & e . name )": "enum-name",
+    "decls.rs:emit_enum:Self :: escape_keyword ( & v . name )": "enum-variant",
+    "decls.rs:emit_enum:Self :: escape_keyword ( & f . name )": "enum-variant-field",
+    "decls.rs:emit_enum:Self :: escape_keyword ( d )": "derive-name",
+    "decls.rs:emit_enum:Self :: escape_keyword ( & v . name )#2": "enum-variant",
+    "expressions/comprehensions.rs:emit_list_comp:Self :: escape_keyword ( variable )": "comprehension-variable",
+    "expressions/comprehensions.rs:emit_dict_comp:Self :: escape_keyword ( variable )": "comprehension-variable",
+    "expressions/indexing.rs:emit_field_expr:Self :: escape_keyword ( name )": "type-name-in-path",
+    "expressions/indexing.rs:emit_field_expr:Self :: escape_keyword ( field )": "enum-variant-or-assoc-in-path",
+    "expressions/indexing.rs:emit_field_expr:Self :: escape_keyword ( field )#2": "field-access",
+    "expressions/lvalue.rs:emit_lvalue_expr:Self :: escape_keyword ( field )": "field-access",
+    "expressions/lvalue.rs:emit_assign_target:Self :: escape_keyword ( field )": "field-assign",
+    "expressions/methods.rs:emit_method_call_expr:Self :: escape_keyword ( name )": "type-name-in-path",
+    "expressions/methods.rs:emit_method_call_expr:Self :: escape_keyword ( method )": "associated-function-call",
+    "expressions/methods.rs:emit_method_call_expr:Self :: escape_keyword ( method )#2": "method-call",
+    "expressions/methods.rs:emit_enum_variant_call:Self :: escape_keyword ( type_name )": "type-name-in-path",
+    "expressions/methods.rs:emit_enum_variant_call:Self :: escape_keyword ( variant )": "enum-variant",
+    "expressions/mod.rs:emit_expr:Self :: escape_keyword ( type_name )": "type-name-in-path",
+    "expressions/structs_enums.rs:emit_struct_expr:Self :: escape_keyword ( fname )": "field-init",
+    "expressions/structs_enums.rs:emit_struct_expr:Self :: escape_keyword ( fname )#2": "field-init",
+    "types.rs:emit_type:Self :: escape_keyword ( name )#3": "generic-type-parameter",
+    "types.rs:emit_pattern:Self :: escape_keyword ( name )#2": "struct-pattern-type",
+    "types.rs:emit_pattern:Self :: escape_keyword ( fname )": "struct-pattern-field",
+    "types.rs:emit_pattern:Self :: escape_keyword ( s )": "enum-pattern-path-segment",
+    "types.rs:emit_pattern:Self :: escape_keyword ( variant )": "enum-variant",
 }
 
 
